@@ -49,7 +49,7 @@ ANCHORS = ['pfhedge.nn.functional:d1',
            'pfhedge.nn.modules.bs._base:acquire_params_from_derivative_1',
            'pfhedge.nn.modules.bs._base:acquire_params_from_derivative_2']
 DECIDING = ["module.partial_arguments", "module.own_contract_with_derivative_state", "price.european", "price.european_binary", "price.american_binary", "price.lookback", "module.plumbing"]
-REQUIRED_BRANCHES = ["module.struck_at_initial_spot", "module.partial.max_omitted_spot_given", "module.resimulated_through_underlier", "american_binary.max==strike>spot", "european.put", "european_binary.put", "american_binary.max>=strike", "american_binary.max<strike",
+REQUIRED_BRANCHES = ["max_ladder.all_below_strike", "module.struck_at_initial_spot", "module.partial.max_omitted_spot_given", "module.resimulated_through_underlier", "american_binary.max==strike>spot", "european.put", "european_binary.put", "american_binary.max>=strike", "american_binary.max<strike",
                      "lookback.max>=strike", "lookback.max<strike", "strike!=1"]
 
 _CTX = None
@@ -212,7 +212,7 @@ def gen_points(rng, dtype, n):
 
 def drv_sweep(ctx, k, rng):
     dtype = F64 if rng.random() < 0.8 else F32
-    shape_kind = pick(rng, ["vec", "vec", "bcast", "scalar", "0dim"])
+    shape_kind = pick(rng, ["vec", "vec", "bcast", "scalar", "0dim", "max_ladder"])
     K = float(pick(rng, [1.0, 1.0, 0.5, 2.0, float(rng.uniform(0.11, 10))]))
     if shape_kind == "bcast":
         s, _, _, m = gen_points(rng, dtype, 3)
@@ -225,6 +225,15 @@ def drv_sweep(ctx, k, rng):
         tt, v = float(tt[0]), float(v[0])
     elif shape_kind == "0dim":
         s, tt, v, m = (z[0] for z in gen_points(rng, dtype, 1))
+    elif shape_kind == "max_ladder":
+        # one spot / maturity / volatility against a ladder of running maxima (a dimension only the maximum has); half the time all of them below the strike
+        s, tt, v, _ = (z[0] for z in gen_points(rng, dtype, 1))
+        if rng.random() < 0.5:
+            s = -s.abs() - 0.05
+            m = s + t(np.sort(rng.uniform(0, 1, 4)), dtype) * (-s) * 0.9
+            ctx.branch("max_ladder.all_below_strike")
+        else:
+            m = s + t(np.sort(rng.uniform(0, 0.6, 4)), dtype)
     else:
         s, tt, v, m = gen_points(rng, dtype, 3)
     which = pick(rng, ["european", "european_binary", "american_binary", "lookback"])
